@@ -594,8 +594,8 @@ class PatternOp(IRDLOperation):
 
     def print(self, printer: Printer) -> None:
         if self.sym_name is not None:
-            printer.print_string(" @")
-            printer.print_string(self.sym_name.data)
+            printer.print_string(" ")
+            printer.print_symbol_name(self.sym_name.data)
         printer.print_string(f" : benefit({self.benefit.value.data}) ")
         printer.print_region(self.body)
 
